@@ -147,44 +147,6 @@ fn fake_map(t: &Tree) -> HashMap<PathBuf, Vec<u8>> {
     m
 }
 
-/// depth-bounded walk with the real FakeFileSystem::glob: false when includes nest deeper than
-/// `limit` (a cycle, which the real loader would follow until the stack overflows)
-fn acyclic(t: &Tree, limit: usize) -> bool {
-    let fsys = load::FakeFileSystem::from(fake_map(t));
-    let by_path: HashMap<PathBuf, &Vec<AEntry>> = t.files.iter().map(|(p, es)| (PathBuf::from(vstr(p)), es)).collect();
-    fn go(fsys: &load::FakeFileSystem, by: &HashMap<PathBuf, &Vec<AEntry>>, p: &Path, depth: usize, limit: usize, budget: &mut usize) -> bool {
-        if depth > limit || *budget == 0 {
-            return false;
-        }
-        *budget -= 1;
-        let cp = fsys.canonicalize_path(p).into_owned();
-        let es = match by.get(&cp) {
-            Some(es) => *es,
-            None => return true,
-        };
-        for e in es {
-            if let AEntry::Inc(w) = e {
-                let target = match cp.parent() {
-                    Some(d) => d.join(w),
-                    None => return true,
-                };
-                let paths = match fsys.glob(&target.to_string_lossy()) {
-                    Ok(p) => p,
-                    Err(_) => return true,
-                };
-                for q in paths {
-                    if !go(fsys, by, &q, depth + 1, limit, budget) {
-                        return false;
-                    }
-                }
-            }
-        }
-        true
-    }
-    let mut budget = 400;
-    go(&fsys, &by_path, Path::new(&vstr(&t.root)), 0, limit, &mut budget)
-}
-
 pub struct Observed {
     fake: LObs,
     real: LObs,
@@ -759,6 +721,18 @@ fn gen_tree(r: &mut Rng) -> (Tree, BTreeSet<String>) {
             }
         }
     }
+    // an include back to the root from one of the other files: a cycle when that file is loaded
+    if t.kind == 0 && t.files.len() > 1 && r.chance(1, 20) {
+        let cands: Vec<usize> = (1..t.files.len()).filter(|i| !t.files[*i].1.iter().any(|e| matches!(e, AEntry::Garbage(_)))).collect();
+        if !cands.is_empty() {
+            let fi = *r.pick(&cands);
+            let k = r.below(t.files[fi].1.len() as u64 + 1) as usize;
+            let canon_root: VPath = t.files[0].0.clone();
+            t.files[fi].1.insert(k, AEntry::Inc(vstr(&canon_root)));
+            t.kind = 2;
+            tags.insert("include:back to the root (cycle)".into());
+        }
+    }
     (t, tags)
 }
 
@@ -776,11 +750,7 @@ struct Pending {
     source: String,
 }
 
-fn queue(q: &mut Vec<Pending>, st: &mut Stats, t: Tree, tags: BTreeSet<String>, source: &str) {
-    if !acyclic(&t, 8) {
-        st.count("discarded:include cycle (the loader has no visited-set: F6 of C06)");
-        return;
-    }
+fn queue(q: &mut Vec<Pending>, _st: &mut Stats, t: Tree, tags: BTreeSet<String>, source: &str) {
     q.push(Pending { t, tags, source: source.to_string() });
 }
 
@@ -823,8 +793,8 @@ pub fn run(o: &Opts) {
         o.shards,
         "From Coq Require Import List NArith.\nFrom Okv Require Import Model.Glob Model.Load Run.Classify_C11.\nImport ListNotations.\nOpen Scope N_scope.",
     );
-    st.rule = "a case = a ledger of 0-10 identifiable transactions (running balance assertions make the order matter) cut at entry boundaries into a random tree of files (depth <= 4; sub-directories, parent and sibling directories through .., ./, up-and-back and absolute written paths; literal includes; glob includes *.ledger, prefix*.ledger, ?.ledger, dir*/f.ledger and */f.ledger whose matches are assigned consecutive chunks in PathBuf order; decoy files that must not match: dot-files, deeper levels, other suffixes; names with '.', '-', ' ', '+' and non-ASCII letters so that component order differs from string order), one sixth of them with one include changed to match nothing; loaded with Loader::load on FakeFileSystem and with new_loader on a real directory, plus report::process balances of the tree vs the uncut ledger; non-trivial = at least 2 loaded files and at least one glob or .. include; distinct by the whole tree".into();
-    st.assumptions.push("no include cycles (the loader would recurse until the stack overflows: F6 of C06, not repaired here); patterns use only literals, * and ? (no [...] or **); . and .. components occur only before the first wildcard component and never climb above the tree's top directory; no pattern's last component matches a directory; no symlinks, valid UTF-8 names and contents".into());
+    st.rule = "a case = a ledger of 0-10 identifiable transactions (running balance assertions make the order matter) cut at entry boundaries into a random tree of files (depth <= 4; sub-directories, parent and sibling directories through .., ./, up-and-back and absolute written paths; literal includes; glob includes *.ledger, prefix*.ledger, ?.ledger, dir*/f.ledger and */f.ledger whose matches are assigned consecutive chunks in PathBuf order; decoy files that must not match: dot-files, deeper levels, other suffixes; names with '.', '-', ' ', '+' and non-ASCII letters so that component order differs from string order), one sixth of them with one include changed to match nothing, one in twenty with an include back to the root (a cycle: LoadError::IncludeCycle); loaded in child processes with Loader::load on FakeFileSystem and with new_loader on a real directory, plus report::process balances of the tree vs the uncut ledger; non-trivial = at least 2 loaded files and at least one glob or .. include; distinct by the whole tree".into();
+    st.assumptions.push("patterns use only literals, * and ? (no [...] or **); . and .. components occur only before the first wildcard component and never climb above the tree's top directory; no pattern's last component matches a directory; no symlinks, valid UTF-8 names and contents".into());
     let sc = Scratch::new("c11");
     let mut q: Vec<Pending> = Vec::new();
     let mut files: Vec<PathBuf> = Vec::new();
